@@ -1154,6 +1154,8 @@ func (sdb *DbSqlite) getNodes(tx *sql.Tx, parent, id, typ string, includeDel boo
 		return nil, fmt.Errorf("children error getting node points: %v", err)
 	}
 
+	verifYield("get-after-queries")
+
 	for i, ne := range ret {
 		ret[i].Points = nodePoints[ne.ID]
 	}
